@@ -317,33 +317,50 @@ theorem raise_inv_of (s0 : St) (e : Cont) (hs0 : inLoop s0 = false) (hc : Consis
   · exact h.lastc
   · intro hn; exact absurd hn hY
 
-theorem enter_inv (s0 : St) (e : Cont) (hs0 : inLoop s0 = false) (hc : Consistent s0.vm)
-    (st : St) (Y : List Cont) (h : Inv s0 e st Y) (hY : Y ≠ []) (pre args : Nat) (c : Callee) :
-    ∃ Y', Inv s0 e (enter pre args c st) Y' := by
+theorem enterWith_inv (s0 : St) (e : Cont) (hs0 : inLoop s0 = false) (hc : Consistent s0.vm)
+    (st : St) (Y : List Cont) (h : Inv s0 e st Y) (hY : Y ≠ []) (t : Bool) (pre args : Nat)
+    (c : Callee) :
+    ∃ Y', Inv s0 e (enterWith t pre args c st) Y' := by
   cases c with
   | koto a =>
     refine ⟨.loop (.truncate (nextRegister st.vm)) :: Y, ?_⟩
     refine ⟨?_, ?_, ?_, ?_, ?_, ?_, ?_⟩
-    · simp [enter, h.conts]
-    · simp [enter, callKoto, pushFrame, peelAll, dropLoop, h.peel]
-    · simp [enter, callKoto, pushFrame, topBase]
+    · simp [enterWith, h.conts]
+    · simp [enterWith, callKoto, pushFrame, peelAll, dropLoop, h.peel]
+    · simp [enterWith, callKoto, pushFrame, topBase]
     · intro hl; simp [hasLoop] at hl
-    · simp [enter, callKoto, pushFrame, impMods, h.ph]
+    · simp [enterWith, callKoto, pushFrame, impMods, h.ph]
     · intro _; rw [getLast_cons_ne _ _ hY]; exact h.lastc hY
     · intro hn; simp at hn
   | native =>
-    refine ⟨.native (nextRegister { st.vm with regs := st.vm.regs + pre }) (some (nextRegister st.vm)) :: Y, ?_⟩
+    refine ⟨.native (nextRegister { st.vm with regs := st.vm.regs + pre })
+      (some (nextRegister st.vm, t)) :: Y, ?_⟩
     refine ⟨?_, ?_, ?_, ?_, ?_, ?_, ?_⟩
-    · simp [enter, h.conts]
-    · simp [enter, peelAll, h.peel]
-    · simp [enter, h.base]
-    · intro hl; simp [enter]; exact h.minr (by simpa [hasLoop] using hl)
-    · simp [enter, impMods, h.ph]
+    · simp [enterWith, h.conts]
+    · simp [enterWith, peelAll, h.peel]
+    · simp [enterWith, h.base]
+    · intro hl; simp [enterWith]; exact h.minr (by simpa [hasLoop] using hl)
+    · simp [enterWith, impMods, h.ph]
     · intro _; rw [getLast_cons_ne _ _ hY]; exact h.lastc hY
     · intro hn; simp at hn
   | fail =>
-    simp only [enter]
-    exact raise_inv_of s0 e hs0 hc st Y h hY true _ rfl rfl rfl rfl
+    simp only [enterWith]
+    cases t with
+    | true =>
+      exact raise_inv_of s0 e hs0 hc st Y h hY true _ (by simp [truncate]) (by simp [truncate])
+        (by simp [truncate]) (by simp [truncate])
+    | false =>
+      exact raise_inv_of s0 e hs0 hc st Y h hY true _ (by simp) (by simp) (by simp) (by simp)
+
+theorem enter_inv (s0 : St) (e : Cont) (hs0 : inLoop s0 = false) (hc : Consistent s0.vm)
+    (st : St) (Y : List Cont) (h : Inv s0 e st Y) (hY : Y ≠ []) (pre args : Nat) (c : Callee) :
+    ∃ Y', Inv s0 e (enter pre args c st) Y' :=
+  enterWith_inv s0 e hs0 hc st Y h hY true pre args c
+
+theorem enterOp_inv (s0 : St) (e : Cont) (hs0 : inLoop s0 = false) (hc : Consistent s0.vm)
+    (st : St) (Y : List Cont) (h : Inv s0 e st Y) (hY : Y ≠ []) (pre args : Nat) (c : Callee) :
+    ∃ Y', Inv s0 e (enterOp pre args c st) Y' :=
+  enterWith_inv s0 e hs0 hc st Y h hY false pre args c
 
 theorem enterDirect_inv (s0 : St) (e : Cont) (hs0 : inLoop s0 = false) (hc : Consistent s0.vm)
     (st : St) (Y : List Cont) (h : Inv s0 e st Y) (hY : Y ≠ []) (pre : Nat) (ok : Bool) :
@@ -419,6 +436,7 @@ theorem step_inv_loop (s0 : St) (e : Cont) (hs0 : inLoop s0 = false) (hc : Consi
   have hbase : st.vm.base = f.base := by rw [h.base, hstk]; rfl
   cases ev with
   | enter pre args c => exact enter_inv s0 e hs0 hc st _ h hY pre args c
+  | enterOp pre args c => exact enterOp_inv s0 e hs0 hc st _ h hY pre args c
   | enterDirect pre ok => exact enterDirect_inv s0 e hs0 hc st _ h hY pre ok
   | newFrame n =>
     refine ⟨_, inv_of_same s0 e st _ _ h hY ?_ ?_ ?_ ?_ ?_ ⟨x, Y1, Or.inl rfl⟩⟩
@@ -574,7 +592,7 @@ theorem nativeOk_fields (fb : Nat) (vm : VM) :
   cases hs : vm.stack <;> simp [nativeOk, hs, truncate]
 
 theorem step_inv_native (s0 : St) (e : Cont) (hs0 : inLoop s0 = false) (hc : Consistent s0.vm)
-    (st : St) (fb : Nat) (host : Option Nat) (Y1 : List Cont)
+    (st : St) (fb : Nat) (host : Option (Nat × Bool)) (Y1 : List Cont)
     (h : Inv s0 e st (.native fb host :: Y1)) (ev : Ev) :
     ∃ Y', Inv s0 e (step ev st) Y' := by
   have hY : (Cont.native fb host :: Y1) ≠ [] := by simp
@@ -590,6 +608,7 @@ theorem step_inv_native (s0 : St) (e : Cont) (hs0 : inLoop s0 = false) (hc : Con
     intro hl; exact h.minr (by simpa [hasLoop] using hl)
   cases ev with
   | enter pre args c => exact enter_inv s0 e hs0 hc st _ h hY pre args c
+  | enterOp pre args c => exact enterOp_inv s0 e hs0 hc st _ h hY pre args c
   | enterDirect pre ok => exact enterDirect_inv s0 e hs0 hc st _ h hY pre ok
   | nativeRet ok =>
     cases ok with
@@ -598,8 +617,8 @@ theorem step_inv_native (s0 : St) (e : Cont) (hs0 : inLoop s0 = false) (hc : Con
       refine ⟨Y1, ?_⟩
       cases host with
       | some rr =>
-        have ht := truncate_fields rr (nativeOk fb st.vm)
-        have hstep : step (.nativeRet true) st = ⟨truncate rr (nativeOk fb st.vm), Y1 ++ s0.conts⟩ := by
+        have ht := truncate_fields rr.1 (nativeOk fb st.vm)
+        have hstep : step (.nativeRet true) st = ⟨truncate rr.1 (nativeOk fb st.vm), Y1 ++ s0.conts⟩ := by
           simp [step, hin, hconts]
         rw [hstep]
         refine ⟨rfl, ?_, ?_, ?_, ?_, hl1, ?_⟩
@@ -619,11 +638,30 @@ theorem step_inv_native (s0 : St) (e : Cont) (hs0 : inLoop s0 = false) (hc : Con
         · simp only []; rw [hn.2.2.2]; exact hph
         · intro hnil; rw [hex hnil]; simp [DoneP]
     | false =>
-      have hstep : step (.nativeRet false) st = raiseGo (Y1 ++ s0.conts) true st.vm := by
-        simp [step, hin, hconts]
-      rw [hstep]
-      exact raiseGo_inv s0 e hs0 hc Y1 true st.vm hpeel h.base hminr hph hl1
-        (fun hnil => by rw [hex hnil]; simp [DoneP])
+      cases host with
+      | none =>
+        have hstep : step (.nativeRet false) st = raiseGo (Y1 ++ s0.conts) true st.vm := by
+          simp [step, hin, hconts]
+        rw [hstep]
+        exact raiseGo_inv s0 e hs0 hc Y1 true st.vm hpeel h.base hminr hph hl1
+          (fun hnil => by rw [hex hnil]; simp [DoneP])
+      | some rr =>
+        have hstep : step (.nativeRet false) st =
+            raiseGo (Y1 ++ s0.conts) true (if rr.2 then truncate rr.1 st.vm else st.vm) := by
+          simp [step, hin, hconts]
+        rw [hstep]
+        cases hr2 : rr.2 with
+        | false =>
+          simp only [Bool.false_eq_true, if_false]
+          exact raiseGo_inv s0 e hs0 hc Y1 true st.vm hpeel h.base hminr hph hl1
+            (fun hnil => by rw [hex hnil]; simp [DoneP])
+        | true =>
+          simp only [if_true]
+          have ht := truncate_fields rr.1 st.vm
+          exact raiseGo_inv s0 e hs0 hc Y1 true (truncate rr.1 st.vm)
+            (by rw [ht.1]; exact hpeel) (by rw [ht.2.1, ht.1]; exact h.base)
+            (fun hl => by rw [ht.2.2.1]; exact hminr hl) (by rw [ht.2.2.2.1]; exact hph) hl1
+            (fun hnil => by rw [hex hnil]; simp [DoneP])
   | newFrame n => exact ⟨_, by simpa [step, hin] using h⟩
   | tryStart r ip => exact ⟨_, by simpa [step, hin] using h⟩
   | tryEnd => exact ⟨_, by simpa [step, hin] using h⟩
@@ -658,6 +696,7 @@ theorem step_inv_importing (s0 : St) (e : Cont) (hs0 : inLoop s0 = false) (hc : 
     intro hl; exact h.minr (by simpa [hasLoop] using hl)
   cases ev with
   | enter pre args c => exact enter_inv s0 e hs0 hc st _ h hY pre args c
+  | enterOp pre args c => exact enterOp_inv s0 e hs0 hc st _ h hY pre args c
   | enterDirect pre ok => exact enterDirect_inv s0 e hs0 hc st _ h hY pre ok
   | importEnd ok =>
     have herase : st.vm.placeholders.erase m = impMods Y1 ++ s0.vm.placeholders := by
